@@ -193,7 +193,7 @@ def make_table_json_precursor(cells: CellGrid, origin, fixer:ParseFixer) -> Tupl
             *(
                 line[:n_row]  # trim empty cells off of long lines
                 if len(line) >= n_row
-                else line + [None] * (n_row - len(line))  # pad short lines with empty cells
+                else list(line) + [None] * (n_row - len(line))  # pad short lines with empty cells
                 for line in data_lines
             )
         )
